@@ -452,8 +452,60 @@ def scn_nodes(ctx):
     ctx.nontrivial = True
 
 
-FAMILIES = {"history": scn_history, "nodes": scn_nodes}
-PLAN = {"quick": [("history", 6000, 50), ("nodes", 90, 3)], "thorough": [("history", 300000, 200), ("nodes", 1500, 10)]}
+def scn_concurrent(ctx):
+    """Two or three callers share one FRESH Taus object and ask at the same time: each in a real
+    thread that runs only while it holds the baton, pre-empted at repository-line granularity by
+    the seeded scheduler.  Every answer must be the model's, whatever the other callers are in
+    the middle of (an object that builds something lazily on first use is shared before it is ready)."""
+    from nuspacesim.simulation.taus.taus import Taus
+
+    from ..schedsim import run_interleaved
+
+    ch, tier = ctx.ch, ctx.tier
+    v = ("1", "3", "2", "1")[ch.draw(4, "table_version")]  # version 1 has the non-positive entries
+    P = _pool(v, tier)
+    m = len(P["E"])
+    obj = Taus(_config(v))
+    ncall = 2 + (ch.draw(3, "callers") == 2)
+    batches = []
+    for k in range(ncall):
+        idx = np.asarray(histsim.draw_indices(ch, m, 48))
+        ok = P["e_ok"][idx] | P["high"][idx]
+        idx = idx[ok]
+        if len(idx) == 0:
+            idx = np.asarray([0])
+        batches.append(idx)
+    args = [(np.array(P["B"][i]), np.array(P["E"][i])) for i in batches]
+    second_round = ch.draw(2, "second_round") == 1
+    # a call is ~15 repository lines: quanta of 1..50 lines, or ("targeted") long quanta that end
+    # right after a line that stores to an attribute or a global (found by a static scan)
+    policy = ("targeted", "fine", "targeted", "mixed")[ch.draw(4, "quanta")]
+    ctx.log(f"concurrent table={v} callers={ncall} sizes={[len(b) for b in batches]} quanta={policy}")
+    ctx.describe.update(table_version=v, callers=ncall, quanta=policy)
+
+    def caller(k):
+        def go():
+            r1 = obj.tau_exit_prob(*args[k])
+            r2 = obj.tau_exit_prob(*args[k]) if second_round else None
+            return r1, r2
+        return go
+
+    res, switches = run_interleaved(ctx, env.repo_src(), [caller(k) for k in range(ncall)], policy)
+    ctx.probes["concurrent_callers_context_switches"] += switches
+    ctx.nontrivial = switches > 0
+    ctx.log(f"switches={switches} outcomes={['exc:' + type(e).__name__ if e else 'ok' for _, e in res]}")
+    for k, (r, e) in enumerate(res):
+        if e is not None:
+            raise Violation("c05.concurrent_caller_fails", f"caller {k} of {ncall} sharing one Taus object raised {type(e).__name__}: {str(e)[:160]} (alone, the same call returns)", sig="concurrent")
+        memo = {}
+        _check_values(ctx, v, P, batches[k], r[0], memo, f"tau_exit_prob[caller {k} of {ncall} concurrent]", k)
+        if r[1] is not None:
+            _check_values(ctx, v, P, batches[k], r[1], memo, f"tau_exit_prob[caller {k}, second call]", k)
+    ctx.steps += ncall
+
+
+FAMILIES = {"history": scn_history, "nodes": scn_nodes, "concurrent": scn_concurrent}
+PLAN = {"quick": [("history", 6000, 50), ("nodes", 90, 3), ("concurrent", 600, 20)], "thorough": [("history", 300000, 200), ("nodes", 1500, 10), ("concurrent", 30000, 100)]}
 BUDGET = {"quick": 150, "thorough": 1500}
 
 META = {
